@@ -247,6 +247,19 @@ func (r *Report) Finish(verifDir, evidencePath string) int {
 	for _, k := range rules {
 		fmt.Printf("  rule %-34s %3d instance(s)\n", k, perRule[k])
 	}
+	if os.Getenv("VERIF_VERBOSE") != "" {
+		for _, o := range r.Obls {
+			st := "ok  "
+			if !o.OK {
+				st = "FAIL"
+			}
+			d := o.Detail
+			if len(d) > 220 {
+				d = d[:220] + "…"
+			}
+			fmt.Printf("    %s %s @%s :: %s\n", st, o.Key, o.Pos, d)
+		}
+	}
 	for _, l := range lines {
 		fmt.Println(l)
 	}
